@@ -21,7 +21,10 @@ use crate::{
         search::{search_app::SearchApp, search_app_result::SearchAppResult},
     },
     plugin::{
-        input::{input_plugin::InputPlugin, input_plugin_ops as in_ops},
+        input::{
+            input_json_extensions::InputJsonExtensions, input_plugin::InputPlugin,
+            input_plugin_ops as in_ops,
+        },
         output::{output_plugin::OutputPlugin, output_plugin_ops as out_ops},
     },
 };
@@ -386,14 +389,21 @@ impl CompassApp {
 
         // unpack input plugin results
         let (processed_inputs_nested, error_inputs_nested) = input_plugin_result;
-        let processed_inputs: Vec<Value> = processed_inputs_nested
-            .into_iter()
-            .flatten()
-            .flatten()
-            .collect();
+        // a weight estimate that cannot be read is a user error: answer that query with an
+        // error response instead of failing the whole run in the load balancing step below
+        let (processed_inputs, invalid_weight_inputs): (Vec<Value>, Vec<Value>) =
+            processed_inputs_nested
+                .into_iter()
+                .flatten()
+                .flatten()
+                .partition_map(|mut q| match q.get_query_weight_estimate() {
+                    Ok(_) => Either::Left(q),
+                    Err(e) => Either::Right(in_ops::package_error(&mut q, e)),
+                });
         let load_balanced_inputs =
             ops::apply_load_balancing_policy(&processed_inputs, parallelism, 1.0)?;
-        let error_inputs: Vec<Value> = error_inputs_nested.into_iter().flatten().collect();
+        let mut error_inputs: Vec<Value> = error_inputs_nested.into_iter().flatten().collect();
+        error_inputs.extend(invalid_weight_inputs);
         if load_balanced_inputs.is_empty() {
             return Ok(error_inputs);
         }
